@@ -17,7 +17,8 @@ Transcribes
 
 Trusted, not transcribed: crate `timer` 0.2 (a callback never runs before its date; callbacks whose
 dates differ run in date order; dropping a `Guard` before the callback is popped prevents it;
-dropping the `Timer` stops the scheduler thread and discards the heap), `str::parse::<i64>` and
+dropping the `Timer` *sends a Stop message*; once the scheduler thread has read it, it returns and
+the heap is discarded — until then it goes on firing what is due), `str::parse::<i64>` and
 `str::parse::<f64>` (modelled as exact decimal arithmetic, see `toMillis`), the OS clock.
 
 Strings are `List Nat` (UTF-8 bytes).  The lexer works on `char`s; every byte of a multi-byte
@@ -294,8 +295,11 @@ structure Delivery (ε : Type) where
 /-- one session's state as far as delayed sends are concerned -/
 structure Timer (δ ε : Type) where
   now : Nat
-  /-- `false` once the session thread has ended (its `Fsm` and `Fsm.timer` are dropped) -/
+  /-- `false` once the session thread has ended (its `Fsm` and with it `Fsm.timer` are dropped:
+  `TimerBase::drop` *sends* `Op::Stop` to the timer's threads) -/
   alive : Bool
+  /-- `true` once the scheduler thread has taken `Op::Stop` out of its mailbox and returned -/
+  stopped : Bool
   nextSeq : Nat
   /-- the datamodel -/
   data : δ
@@ -309,7 +313,7 @@ structure Timer (δ ε : Type) where
   errors : Nat
 
 def Timer.init (d : δ) : Timer δ ε :=
-  { now := 0, alive := true, nextSeq := 0, data := d, pending := [], delayed := [], log := [], errors := 0 }
+  { now := 0, alive := true, stopped := false, nextSeq := 0, data := d, pending := [], delayed := [], log := [], errors := 0 }
 
 def lookupId (id : SendId) : List (SendId × Nat) → Option Nat
   | [] => none
@@ -377,12 +381,19 @@ def fireLoop : Nat → Timer δ ε → Timer δ ε
     | [] => t
     | e :: rest => if e.due ≤ t.now then fireLoop f (fireOne t e rest) else t
 
-/-- the timer thread runs (possibly later than the first due time: `now` is whatever it is) -/
+/-- the timer thread runs (possibly later than the first due time: `now` is whatever it is).
+It keeps running after the session thread has ended, until it has seen `Op::Stop`. -/
 def Timer.wake (t : Timer δ ε) : Timer δ ε :=
-  if t.alive = false then t else fireLoop t.pending.length t
+  if t.stopped = true then t else fireLoop t.pending.length t
 
-/-- the session thread ends: `Fsm` dropped ⇒ `timer::Timer` dropped ⇒ heap discarded -/
-def Timer.terminate (t : Timer δ ε) : Timer δ ε := { t with alive := false, pending := [] }
+/-- the session thread ends: `Fsm` dropped ⇒ `timer::Timer` dropped ⇒ `Op::Stop` is on its way
+(through the communication thread) to the scheduler thread.  Nothing is discarded yet. -/
+def Timer.terminate (t : Timer δ ε) : Timer δ ε := { t with alive := false }
+
+/-- the scheduler thread drains its mailbox and finds `Op::Stop` (only ever sent by the drop):
+it returns, the heap is discarded -/
+def Timer.stop (t : Timer δ ε) : Timer δ ε :=
+  if t.alive = true then t else { t with stopped := true, pending := [] }
 
 def Timer.tick (t : Timer δ ε) (t' : Nat) : Timer δ ε := { t with now := max t.now t' }
 
@@ -397,7 +408,10 @@ inductive Op (δ ε : Type) where
   | tick (t : Nat)
   /-- the timer thread runs -/
   | wake
+  /-- the session thread ends (the `Stop` message is sent) -/
   | terminate
+  /-- the `Stop` message reaches the scheduler thread -/
+  | stop
 
 def Timer.step (t : Timer δ ε) : Op δ ε → Timer δ ε
   | .send id tg d f => t.send id tg d f
@@ -406,6 +420,7 @@ def Timer.step (t : Timer δ ε) : Op δ ε → Timer δ ε
   | .tick t' => t.tick t'
   | .wake => t.wake
   | .terminate => t.terminate
+  | .stop => t.stop
 
 def Timer.run (t : Timer δ ε) : List (Op δ ε) → Timer δ ε
   | [] => t
@@ -414,12 +429,16 @@ def Timer.run (t : Timer δ ε) : List (Op δ ε) → Timer δ ε
 /-- an ideal timer: time passes to `t'` and the timer thread runs at once -/
 def Op.advance (t' : Nat) : List (Op δ ε) := [.tick t', .wake]
 
+/-- an ideal termination: the `Stop` message is processed before the timer thread does anything else -/
+def Op.terminateNow : List (Op δ ε) := [.terminate, .stop]
+
 /-- does executing `op` leave a pending entry with send id `sid?` alone?  (`wake` delivers it or
 leaves it; it never discards it.) -/
 def Op.harmlessFor (sid? : Option SendId) : Op δ ε → Bool
   | .send id _ d _ => !(decide (0 < d) && id.isSome && id == sid?)
   | .cancel id => !(sid? == some id)
   | .terminate => false
+  | .stop => false
   | _ => true
 
 /-- "pending send ids are distinct": no delayed `<send id=X>` executes while a send with id `X` is
